@@ -303,7 +303,16 @@ func checkC10(c *h.Check) {
 				if wrap == wrapDirect && nb != nu {
 					continue // direct placement is the base itself
 				}
-				for rev := 0; rev < 2; rev++ {
+				for rev := 0; rev < 3; rev++ {
+					// rev 2: order as written, and every block also carries a provider nobody needs (a set has to be
+					// used only as a whole)
+					passenger := rev == 2
+					if passenger {
+						if wrap == wrapDirect {
+							continue
+						}
+						rev = 0
+					}
 					prog, units := build()
 					b := ir.NewBuilder()
 					_ = b
@@ -330,6 +339,13 @@ func checkC10(c *h.Check) {
 							}
 						}
 						name := fmt.Sprintf("Set%d", bi)
+						if passenger && len(blk) > 0 {
+							pk := root
+							if wrap == wrapNamedLib || (wrap == wrapNamedSameNam && bi%2 == 1) {
+								pk = lib
+							}
+							blk = append(blk, ir.FuncItem(&ir.Func{Pkg: pk, Name: fmt.Sprintf("PPassenger%d", bi), Out: b.Leaf(pk, fmt.Sprintf("Passenger%d", bi))}))
+						}
 						switch wrap {
 						case wrapDirect:
 							items = append(items, blk...)
@@ -361,6 +377,11 @@ func checkC10(c *h.Check) {
 						}
 					}
 					prog.Injectors[0].Items = items
+					if passenger {
+						add(fmt.Sprintf("C10/partition/%s/blocks=%v/wrap=%d/passengers", base.name, block, wrap), prog)
+						kinds.inc("partition-passengers")
+						break
+					}
 					add(fmt.Sprintf("C10/partition/%s/blocks=%v/wrap=%d/rev=%d", base.name, block, wrap, rev), prog)
 					kinds.inc(fmt.Sprintf("partition-wrap%d", wrap))
 				}
@@ -452,7 +473,7 @@ func checkC10(c *h.Check) {
 		}
 	}
 	results := c.JudgeAll(cases)
-	stdCoverage(c, cases, results, "chains of 4 bindings (quick: five orders; thorough: all 120) with the outermost or every link consumed; (e) chains of 2 (thorough: 3) bindings whose intermediate 'concrete' types are themselves interfaces bound in the same set, in every order of bindings and provider, for every set of consumers that includes the outermost interface, directly in wire.Build, in a named set and in an inline set; (d) three injectors over a base set and a set extending it (every declaration order, base first or last, three kinds of extension), and sets reached through a chain of 2-4 packages of which the injector's package imports only the first; well-formed bases (4-5 direct items covering value, interface value, parameter, function, struct value/pointer, field, pointer-to-field, binding; thorough adds a 6-item base): ALL permutations of the Build arguments (bindings move with their provider; quick tier: a FieldsOf also moves with the provider of its struct; inner order flipped too); ALL set partitions of the items (Bell(n)) x wrap mode {named set, set nested two deep, inline NewSet, set declared in another package, same variable name declared in two packages} x both argument orders. Every variant must be accepted, and its execution trace must match the model's wiring (which does not depend on order or grouping): a differential oracle against the base. Distinct = distinct rendered source.")
+	stdCoverage(c, cases, results, "chains of 4 bindings (quick: five orders; thorough: all 120) with the outermost or every link consumed; (e) chains of 2 (thorough: 3) bindings whose intermediate 'concrete' types are themselves interfaces bound in the same set, in every order of bindings and provider, for every set of consumers that includes the outermost interface, directly in wire.Build, in a named set and in an inline set; (d) three injectors over a base set and a set extending it (every declaration order, base first or last, three kinds of extension), and sets reached through a chain of 2-4 packages of which the injector's package imports only the first; well-formed bases (4-5 direct items covering value, interface value, parameter, function, struct value/pointer, field, pointer-to-field, binding; thorough adds a 6-item base): ALL permutations of the Build arguments (bindings move with their provider; quick tier: a FieldsOf also moves with the provider of its struct; inner order flipped too); ALL set partitions of the items (Bell(n)) x wrap mode {named set, set nested two deep, inline NewSet, set declared in another package, same variable name declared in two packages} x both argument orders, and once more with an unneeded provider riding in every block (a set need only be used as a whole). Every variant must be accepted, and its execution trace must match the model's wiring (which does not depend on order or grouping): a differential oracle against the base. Distinct = distinct rendered source.")
 	c.Coverage["variant_kinds"] = kinds.summary()
 	sampleCase(c, cases, results)
 	if len(cases) < 500 {
